@@ -594,3 +594,131 @@ func freshAtEveryCallSite(w *World, f *ssa.Function, v ssa.Value) bool {
 	}
 	return true
 }
+
+// ---------------------------------------------------------------------------------------------
+// R8.16 — excising one version's entry from an encoded mapping keeps both sides: a vmap method
+// that cuts the receiver into a prefix (vm[:a]) and a suffix (vm[b:]) has a result built from both.
+
+func init() {
+	register(ruleDef{ID: "R8.16", Prop: "C08", Tier: "quick", Floor: 2,
+		Title: "excising a version's entry from an encoded supervoxel mapping keeps the entries on both sides: every method of labelmap.vmap that returns a vmap and slices its receiver into a prefix and a suffix has a return value computed from both slices",
+		Fn:    ruleExciseKeepsBothSides})
+}
+
+func ruleExciseKeepsBothSides(r *Run) {
+	w := r.W
+	n := 0
+	for _, f := range w.RepoFuncs {
+		if relPkg(pkgPathOf(f)) != "datatype/labelmap" || len(f.Blocks) == 0 || f.Signature.Recv() == nil || strings.HasSuffix(w.fposFile(f), "_test.go") {
+			continue
+		}
+		if !strings.HasSuffix(f.Signature.Recv().Type().String(), "labelmap.vmap") || f.Signature.Results().Len() != 1 || !strings.HasSuffix(f.Signature.Results().At(0).Type().String(), "labelmap.vmap") {
+			continue
+		}
+		recv := f.Params[0]
+		var prefixes, suffixes []*ssa.Slice
+		for _, b := range f.Blocks {
+			for _, in := range b.Instrs {
+				sl, ok := in.(*ssa.Slice)
+				if !ok || !dataDeps(sl.X)[recv] && sl.X != ssa.Value(recv) {
+					continue
+				}
+				lowZero := sl.Low == nil
+				if k, ok := constInt(sl.Low); sl.Low != nil && ok && k == 0 {
+					lowZero = true
+				}
+				if lowZero && sl.High != nil {
+					prefixes = append(prefixes, sl)
+				}
+				if !lowZero && sl.High == nil {
+					suffixes = append(suffixes, sl)
+				}
+			}
+		}
+		if len(prefixes) == 0 || len(suffixes) == 0 {
+			continue
+		}
+		n++
+		both := false
+		for _, b := range f.Blocks {
+			ret, ok := b.Instrs[len(b.Instrs)-1].(*ssa.Return)
+			if !ok || len(ret.Results) != 1 {
+				continue
+			}
+			deps := contentDeps(ret.Results[0])
+			hp, hs := false, false
+			for _, p := range prefixes {
+				if deps[p] {
+					hp = true
+				}
+			}
+			for _, s := range suffixes {
+				if deps[s] {
+					hs = true
+				}
+			}
+			if hp && hs {
+				both = true
+			}
+		}
+		r.check(both, fname(f)+":excision-keeps-both-sides", "a return value is built from the prefix and the suffix of the receiver",
+			"the method cuts its receiver into a prefix and a suffix but no result is built from both: excising an entry in the middle of the encoded (version, label) list drops the entries of the other versions behind it, so a sibling version's mapping disappears", w.fpos(f))
+	}
+	r.check(n >= 1, "labelmap:vmap-excisions", fmt.Sprintf("%d vmap methods cut the receiver into prefix and suffix", n), "no such method found: rule needs review", "-")
+}
+
+// contentDeps: the values whose *bytes* a slice value is made of: through slicing (the operand, not
+// the bounds), type changes, phis and append.
+func contentDeps(v ssa.Value) map[ssa.Value]bool {
+	seen := map[ssa.Value]bool{}
+	var walk func(x ssa.Value)
+	walk = func(x ssa.Value) {
+		if x == nil || seen[x] {
+			return
+		}
+		seen[x] = true
+		switch y := x.(type) {
+		case *ssa.Slice:
+			walk(y.X)
+		case *ssa.ChangeType:
+			walk(y.X)
+		case *ssa.Convert:
+			walk(y.X)
+		case *ssa.Phi:
+			for _, e := range y.Edges {
+				walk(e)
+			}
+		case *ssa.Call:
+			if b, ok := y.Call.Value.(*ssa.Builtin); ok && b.Name() == "append" {
+				for _, a := range y.Call.Args {
+					walk(a)
+				}
+			}
+		case *ssa.MakeSlice:
+			// bytes copied into a fresh buffer: copy(dst, src) with dst a (slice of) this buffer
+			for _, b := range y.Parent().Blocks {
+				for _, in := range b.Instrs {
+					c, ok := in.(*ssa.Call)
+					if !ok {
+						continue
+					}
+					if bi, ok := c.Call.Value.(*ssa.Builtin); ok && bi.Name() == "copy" && len(c.Call.Args) == 2 {
+						dst := c.Call.Args[0]
+						for {
+							if sl, ok := dst.(*ssa.Slice); ok {
+								dst = sl.X
+								continue
+							}
+							break
+						}
+						if dst == ssa.Value(y) {
+							walk(c.Call.Args[1])
+						}
+					}
+				}
+			}
+		}
+	}
+	walk(v)
+	return seen
+}
